@@ -546,12 +546,29 @@ func run(c *rt.Ctx) {
 		evalCase(c, cs, i)
 	})
 	writers(c)
-	c.Finish("directories hashed by the real code; exhaustive single-edit neighbourhood (every byte position of every file and of atlas.sum × {insert, flip, delete}, every one-character rename, remove, add at every sort position, swap contents, sum-line delete/duplicate/swap, remove atlas.sum) + seeded compound edits; real migrate.Validate (MemDir; LocalDir and `atlas migrate validate` on samples) vs class spec: U/I must validate, P must fail with a checksum-class error, W/X no demand; every writer operation (WritePlan, WriteCheckpoint, CopyFiles, archive round trip, CLI migrate hash/new) must leave the directory valid. distinct = distinct protected/ignored edits",
+	consumers(c)
+	c.Finish("directories hashed by the real code; exhaustive single-edit neighbourhood (every byte position of every file and of atlas.sum × {insert, flip, delete}, every one-character rename, remove, add at every sort position, swap contents, sum-line delete/duplicate/swap, remove atlas.sum) + seeded compound edits; real migrate.Validate (MemDir; LocalDir and `atlas migrate validate` on samples) vs class spec: U/I must validate, P must fail with a checksum-class error, W/X no demand; every consumer (a fresh or re-used Executor's Pending/ExecuteN/ExecuteTo; `atlas migrate validate/new/apply/status/set/diff/lint`) must refuse a protected edit with a checksum error, touching neither database nor directory; every writer operation (WritePlan, WriteCheckpoint, CopyFiles, archive round trip, CLI migrate hash/new) must leave the directory valid. distinct = distinct protected/ignored edits",
 		map[string]any{"bases": len(bs), "hostile_bases": len(hb), "exhaustive": true})
 }
 
 func init() {
 	rt.Register("c06", rt.Monitor{Run: run, Replay: func(c *rt.Ctx, raw json.RawMessage) {
+		var cc ConsCase
+		if json.Unmarshal(raw, &cc) == nil && strings.HasPrefix(cc.Leg, "consumer-") {
+			var key, what string
+			if cc.Leg == "consumer-lib" {
+				key, what = consLib(c, cc)
+			} else {
+				key, what = consCLI(c, cc)
+			}
+			if key != "" {
+				c.Violation(key, what, cc, nil)
+				fmt.Println("VIOLATED:", what)
+			} else {
+				fmt.Println("held")
+			}
+			return
+		}
 		var cs Case
 		if err := json.Unmarshal(raw, &cs); err != nil {
 			panic(err)
